@@ -45,6 +45,13 @@ def make_settings(d, kind):
         pre.save(os.path.join(d, f"pre_{kind}.json"))
         pro.save(os.path.join(d, f"pro_{kind}.json"))
         return f"pre_{kind}.json", f"pro_{kind}.json"
+    if kind == "two-frequencies":
+        # two centre frequencies only: no curve has an interior maximum, the mean curve has no peak and the figure cannot be drawn
+        pre = hvsrpy.HvsrPreProcessingSettings(window_length_in_seconds=2.0, detrend="linear")
+        pro = hvsrpy.HvsrTraditionalProcessingSettings(smoothing=dict(operator="konno_and_ohmachi", bandwidth=40., center_frequencies_in_hz=[1.0, 2.0]))
+        pre.save(os.path.join(d, f"pre_{kind}.json"))
+        pro.save(os.path.join(d, f"pro_{kind}.json"))
+        return f"pre_{kind}.json", f"pro_{kind}.json"
     if kind == "hvsr-fft":
         # a settings file that carries an fft_settings dictionary: the length chosen for one file must not reach the next file of the chunk
         pre = hvsrpy.HvsrPreProcessingSettings(window_length_in_seconds=70.0, detrend="linear")
@@ -115,6 +122,44 @@ def cli_clause(cl, rng, n, replay):
                     cl.fail("hvsrpy.cli._process_hvsr", f"{kind}: output for {f} in batch order {[names[o] for o in order]} with --nproc {nproc} differs from the single-file "
                             "pipeline with freshly loaded settings", signature="cli:batch-dependence", order=order, nproc=nproc, settings=kind)
                     return
+        # ---- a batch that contains a file the pipeline cannot process: every other file still gets its output, wherever the failing one stands and whatever --nproc
+        bad = "XX.BROKEN.mseed"
+        open(os.path.join(d, bad), "w").write("this is not a seismic recording\n")
+        pre, pro = make_settings(d, "hvsr-filter")
+        for f in names:
+            if ("hvsr-filter", f, "lognormal") not in refs:
+                refs[("hvsr-filter", f, "lognormal")] = library_pipeline(d, f, pre, pro, f"ref_hvsr-filter_lognormal_{os.path.splitext(f)[0]}.csv", "lognormal")
+        batches = [([bad] + names, 1), ([names[0], bad] + names[1:], 2)] + ([(names + [bad], 1), ([bad] + names, 2), ([names[0], bad] + names[1:], 1), ([bad] + names, 3)] if n > 10 else [])
+        for args, nproc in batches:
+            for f in names:
+                p = os.path.join(d, os.path.splitext(f)[0] + ".csv")
+                if os.path.exists(p):
+                    os.remove(p)
+            subprocess.run([sys.executable, "-W", "ignore", "-c", "from hvsrpy.cli import cli; cli()"] + args + ["--preprocessing_settings_file", pre, "--processing_settings_file", pro,
+                                                                                                               "--no_figure", "--nproc", str(nproc)],
+                           cwd=d, capture_output=True, text=True, env=os.environ, timeout=600)
+            cl.case(("a file that cannot be processed in the batch", tuple(args), nproc))
+            for f in names:
+                outp = os.path.join(d, os.path.splitext(f)[0] + ".csv")
+                if not os.path.exists(outp) or open(outp, "rb").read() != refs[("hvsr-filter", f, "lognormal")]:
+                    cl.fail("hvsrpy.cli.cli", f"batch {args} with --nproc {nproc} ({bad} cannot be processed): the output for {f} is "
+                            f"{'missing' if not os.path.exists(outp) else 'not that of the single-file pipeline'}", signature="cli:failing-file-in-batch", batch=args, nproc=nproc)
+                    return
+        # ---- figures on (the default) for a file whose mean curve has no peak (the figure cannot be drawn): the result file is written all the same
+        pre, pro = make_settings(d, "two-frequencies")
+        f = names[1]
+        ref = library_pipeline(d, f, pre, pro, f"ref_two-frequencies_{os.path.splitext(f)[0]}.csv", "lognormal")
+        outp = os.path.join(d, os.path.splitext(f)[0] + ".csv")
+        if os.path.exists(outp):
+            os.remove(outp)
+        subprocess.run([sys.executable, "-W", "ignore", "-c", "from hvsrpy.cli import cli; cli()", f, "--preprocessing_settings_file", pre, "--processing_settings_file", pro, "--nproc", "1"],
+                       cwd=d, capture_output=True, text=True, env=os.environ, timeout=600)
+        cl.case(("figure cannot be drawn", f))
+        if not os.path.exists(outp) or open(outp, "rb").read() != ref:
+            cl.fail("hvsrpy.cli._process_hvsr", f"figures on, the mean curve of {f} has no peak (two centre frequencies): the result file is "
+                    f"{'missing' if not os.path.exists(outp) else 'not that of the single-file pipeline'} although read, preprocess, process and write succeed for this file",
+                    signature="cli:figure-cannot-be-drawn")
+            return
     finally:
         import shutil
         shutil.rmtree(d, ignore_errors=True)
@@ -122,7 +167,7 @@ def cli_clause(cl, rng, n, replay):
 
 CLAUSES = [
     ("bounded:CLI output per file == read/preprocess/process/write for that file alone (orders x --nproc x three settings families)", "bounded",
-     "3 miniSEED files of 150 s (500, 100, 200 Hz); 2 s windows, and 70 s windows for the family with an fft_settings dictionary; quick 6 schedules (single-chunk first; one diffuse-field run with figures on and the y axis cut below the curve), thorough all 61", "hvsrpy.cli._process_hvsr", (6, 61), cli_clause),
+     "3 miniSEED files of 150 s (500, 100, 200 Hz); 2 s windows, and 70 s windows for the family with an fft_settings dictionary; quick 6 schedules (single-chunk first; one diffuse-field run with figures on and the y axis cut below the curve), thorough all 61; in every run two (thorough: six) batches containing a file that cannot be processed, and one file whose figure cannot be drawn", "hvsrpy.cli._process_hvsr", (6, 61), cli_clause),
 ]
 
 if __name__ == "__main__":
